@@ -61,6 +61,7 @@ def translate():
         with Lock('translate'):
             tpx.translate(MODEL_BIN, REPO, os.path.join(gen, 'PreludeExpanded.lean'))
             tpx.translate(MODEL_BIN, REPO, os.path.join(gen, 'DebuggerExpanded.lean'), module='debugger', namespace='DebuggerX', wanted=None)
+            tpx.translate(MODEL_BIN, REPO, os.path.join(gen, 'ReplExpanded.lean'), module='repl', namespace='ReplX', wanted=None)
     except Exception as e:
         raise Broken('translator', f'the model cannot load the current prelude.lisp / debugger.lisp: {e}')
 
